@@ -20,10 +20,12 @@ import numpy as np
 from common import Ctx, frac, run_driver
 from props import c07 as bh
 from translate import bh as bh_tr
+from translate import bonds as bonds_tr
 
 PROP = "C08"
-LEAN_MODULE = "TopSearch.Props.C08"
-LEAN_FILES = ["TopSearch.Props.C08", "TopSearch.Lemmas.BasinHopping", "TopSearch.Model.BasinHopping"]
+LEAN_MODULE = "TopSearch.Props.C08Bonds"
+LEAN_FILES = ["TopSearch.Props.C08", "TopSearch.Props.C08Bonds", "TopSearch.Lemmas.BasinHopping", "TopSearch.Model.BasinHopping",
+              "TopSearch.Model.Bonds"]
 EXTRA_TARGETS = ["TopSearch.Gen.BasinHopping", "TopSearch.Drv.Util"]
 REQUIRED = [
     "TopSearch.Props.C08.C08_bridge_fail_tests",
@@ -37,6 +39,10 @@ REQUIRED = [
     "TopSearch.Props.C08.C08_metropolis_rule",
     "TopSearch.Props.C08.C08_metropolis_prob",
     "TopSearch.Props.C08.C08_accept_probability",
+    "TopSearch.Props.C08.C08_bridge_bonds",
+    "TopSearch.Props.C08.C08_same_bonds_iff_perm",
+    "TopSearch.Props.C08.C08_label_pair_symm",
+    "TopSearch.Props.C08.C08_unique_rows_forget_counts",
 ]
 RULE = ("cases = steps of basin-hopping runs (network after the step compared model-vs-implementation, "
         "non-trivial once the run has taken two different paths) + Metropolis grid points "
@@ -57,6 +63,7 @@ OBSERVATION = ("prepare_initial_coordinates stores its minimum when warnflag == 
 
 def regenerate(ctx: Ctx) -> None:
     ctx.gen_status.update(bh_tr.regenerate())
+    ctx.gen_status.update(bonds_tr.regenerate())
     ctx.stats.notes["observation"] = OBSERVATION
 
 
